@@ -100,3 +100,48 @@ package locking
 //@   assumed
 //@   props C16
 //@   modifies fresh
+
+// C18: the four lock API requests.  Creating, verifying and releasing locks
+// are POSTs to <upload endpoint>/locks, /locks/verify and /locks/<id>/unlock
+// whose body is the typed request (schemas: docs/api/schemas); listing is a
+// GET of <download endpoint>/locks whose query string is the search's values,
+// form-encoded by net/url.  The request that is logged and sent is the one
+// that was built.
+//@ func (*httpLockClient).Lock
+//@   props C18
+//@   requires @inv c != nil && c.Client != nil
+//@   at call (*lfsapi.Client).NewRequest:1 assert arg1__ == "POST" && arg3__ == "locks" && ptr_as(arg4__, "github.com/git-lfs/git-lfs/v3/locking.lockRequest") == lockReq
+//@   at call (*lfsapi.Client).LogRequest:1 assert arg1__ == req
+//@   at call (*lfsapi.Client).DoAPIRequestWithAuth:1 assert arg1__ == remote && arg2__ == req
+//@ func (*httpLockClient).Unlock
+//@   props C18
+//@   requires @inv c != nil && c.Client != nil && ref != nil
+//@   at call (*lfsapi.Client).NewRequest:1 assert arg1__ == "POST" && ptr_as(arg4__, "github.com/git-lfs/git-lfs/v3/locking.unlockRequest").Force == force && ptr_as(arg4__, "github.com/git-lfs/git-lfs/v3/locking.unlockRequest").Ref != nil
+//@   at call (*lfsapi.Client).LogRequest:1 assert arg1__ == req
+//@   at call (*lfsapi.Client).DoAPIRequestWithAuth:1 assert arg1__ == remote && arg2__ == req
+//@ func (*httpLockClient).SearchVerifiable
+//@   props C18
+//@   requires @inv c != nil && c.Client != nil
+//@   at call (*lfsapi.Client).NewRequest:1 assert arg1__ == "POST" && arg3__ == "locks/verify" && ptr_as(arg4__, "github.com/git-lfs/git-lfs/v3/locking.lockVerifiableRequest") == vreq
+//@   at call (*lfsapi.Client).LogRequest:1 assert arg1__ == req
+//@   at call (*lfsapi.Client).DoAPIRequestWithAuth:1 assert arg1__ == remote && arg2__ == req
+//@ func (*httpLockClient).Search
+//@   props C18
+//@   requires @inv c != nil && c.Client != nil && searchReq != nil
+//@   at call (*lfsapi.Client).NewRequest:1 assert arg1__ == "GET" && arg3__ == "locks" && arg4__ == nil
+//@   at call (*locking.lockSearchRequest).QueryValues:1 assert arg0__ == searchReq
+//@   at call (url.Values).Add:1 assert arg0__ == q && arg1__ == key && arg2__ == value
+//@   at call (*lfsapi.Client).LogRequest:1 assert arg1__ == req && req.URL.RawQuery == lastqenc() && lastqencof() == q
+//@   at call (*lfsapi.Client).DoAPIRequestWithAuth:1 assert arg1__ == remote && arg2__ == req
+//@ func (*lockSearchRequest).QueryValues
+//@   props C18
+//@   requires @inv r != nil
+//@   modifies fresh
+//@   ensures len(r.Cursor) > 0 ==> has(result, "cursor") && result["cursor"] == r.Cursor
+//@   ensures len(r.Refspec) > 0 ==> has(result, "refspec") && result["refspec"] == r.Refspec
+//@   ensures r.Limit > 0 ==> has(result, "limit")
+//@ func (*github.com/git-lfs/git-lfs/v3/lfsapi.Client).DoAPIRequestWithAuth
+//@   assumed
+//@   props C18
+//@   modifies heap
+//@   ensures result1 == nil ==> result0 != nil
